@@ -627,7 +627,11 @@ def std_out(spec, ctx, results, viols, extra_probes=None, nontrivial=None):
             modes.append('sequential')
     nt = nontrivial if nontrivial is not None else (
         bool(fired) or any(r.sched['max_alive'] >= 2 for r in results))
-    out = {'violations': viols, 'digest': dg.hexdigest()[:20],
+    il = None
+    if any(r.children for r in results):
+        il = hashlib.sha256(repr([(r.sched['log'], r.sched['choices'])
+                                  for r in results if r.children]).encode()).hexdigest()[:14]
+    out = {'violations': viols, 'digest': dg.hexdigest()[:20], 'interleaving': il,
            'shape': C.shape_of(spec, results), 'nontrivial': nt, 'faults': fired,
            'probes': probes, 'modes': modes, 'steps': steps, 'simtime': simtime,
            'execs': len(results)}
